@@ -194,6 +194,10 @@ pub fn scenario(r: &mut Report, seed: u64) {
                     }
                 }
             }
+            "get_signed_peers" if target != Some(tr2.ih) => {
+                label = "signed/replayed-authentic-of-other-infohash".to_string();
+                rd.push(("peers", B::List(signed_entries(&tr2, "authentic", &mut rrng).into_iter().map(B::Bytes).collect())));
+            }
             "get_signed_peers" => {
                 let f = if use_authentic { "authentic" } else { SIG_FORGERIES[pick % SIG_FORGERIES.len()] };
                 label = format!("signed/{f}");
@@ -277,6 +281,17 @@ pub fn scenario(r: &mut Report, seed: u64) {
         r.count("signed_yielded");
         if !verify(s.key(), &announce_signable(&tr.ih, s.timestamp()), s.signature()) {
             r.violation("yield/signed-peer-bad-signature", "get_signed_peers yielded an announcement whose signature over (info_hash, timestamp) does not verify under its key", case.clone(), json!({"key": crate::bencode::hex(s.key()), "replies": obs.borrow().log}));
+        }
+    }
+    // --- the same node looks up ANOTHER info-hash: responders replay the announcements that were
+    // authentic (and already accepted) for the first one
+    let ih2: [u8; 20] = rng.array();
+    let a5 = a.clone();
+    let lists2 = w.block_on(async move { a5.get_signed_peers(Id::from(ih2)).await.collect::<Vec<_>>().await }, bound).unwrap_or_default();
+    for s in lists2.iter().flatten() {
+        r.count("signed_yielded_second_lookup");
+        if !verify(s.key(), &announce_signable(&ih2, s.timestamp()), s.signature()) {
+            r.violation("yield/signed-peer-replayed-from-other-infohash", "get_signed_peers(B) yielded an announcement that was signed for (and earlier accepted under) another info-hash", case.clone(), json!({"key": crate::bencode::hex(s.key()), "replies": obs.borrow().log}));
         }
     }
     let o = obs.borrow();
